@@ -81,6 +81,7 @@ def models(name):
         "zero_block_2x2_fd": dict(modes=[a], H0=sympy.Matrix([[0, 0, 0], [0, 0, 0], [0, 0, w * Na + D]]),
                                   H1=sympy.Matrix([[0, 1, a], [1, 0, sympy.I], [Dagger(a), -sympy.I, 0]]), blocks=[0, 0, 1], fd_blocks=(0,)),
         "spectator_in_matrix": dict(modes=[a, b], H0=sympy.Matrix([[w * Na, 0], [0, w * Na + D]]), H1=sympy.Matrix([[0, b], [Dagger(b), 0]]), blocks=[0, 1]),
+        "matrix_immutable": dict(modes=[a], H0=sympy.ImmutableMatrix([[w * Na, 0], [0, w * Na + D]]), H1=sympy.ImmutableMatrix([[0, a], [Dagger(a), a + Dagger(a)]]), blocks=[0, 1]),
         "displaced_no_symbols": dict(modes=[a], H0=Na, H1=a + Dagger(a), no_symbols=True),
         "spin_no_symbols": dict(modes=[sm], H0=pauli.SigmaZ("s"), H1=pauli.SigmaX("s"), no_symbols=True),
         "matrix_no_symbols": dict(modes=[a], H0=sympy.Matrix([[Na, 0], [0, Na + sympy.Rational(5, 2)]]), H1=sympy.Matrix([[0, a], [Dagger(a), a + Dagger(a)]]), blocks=[0, 1], no_symbols=True),
@@ -523,7 +524,7 @@ def configs(tier):
              ("nonhermitian_drive", 2), ("nonhermitian_jc", 2), ("nonhermitian_fermions", 2),
              ("spectator_boson", 2), ("spectator_fermion", 2), ("resonant_drives", 3), ("spin_y_only", 3), ("spin_y_numeric", 3), ("boson_spin_numeric", 3),
              ("displaced_no_symbols", 3), ("spin_no_symbols", 3), ("matrix_no_symbols", 2),
-             ("parity_coupling", 2), ("spectator_in_matrix", 2)]
+             ("parity_coupling", 2), ("spectator_in_matrix", 2), ("matrix_immutable", 2)]
     thorough = [("anharmonic3", 4), ("anharmonic4", 3), ("displaced", 4), ("kerr_drive", 3), ("two_bosons", 3), ("rabi", 4), ("jc_detuned", 3),
                 ("fermion_hop2", 4), ("fermion_pair3", 3), ("fermion_interaction", 3), ("holstein", 3), ("ladder_drive", 3),
                 ("mask_two_photon", 3), ("mask_one_photon", 2), ("matrix_2x2", 3), ("matrix_1block", 3),
@@ -534,7 +535,7 @@ def configs(tier):
                 ("nonhermitian_drive", 3), ("nonhermitian_jc", 3), ("nonhermitian_fermions", 3),
                 ("spectator_boson", 3), ("spectator_fermion", 3), ("resonant_drives", 4), ("spin_y_only", 4), ("spin_y_numeric", 4), ("boson_spin_numeric", 3),
                 ("displaced_no_symbols", 4), ("spin_no_symbols", 4), ("matrix_no_symbols", 3),
-                ("parity_coupling", 3), ("spectator_in_matrix", 3)]
+                ("parity_coupling", 3), ("spectator_in_matrix", 3), ("matrix_immutable", 3)]
     for name, mo in quick if tier == "quick" else thorough:
         cfgs.append(dict(model=name, max_order=mo, _timeout_s=300 if tier == "quick" else 1500))
     # seeded random polynomial models (fixed seeds per tier: the encoding is regenerated, the set is stated)
